@@ -65,6 +65,9 @@ class Model:
         for ch in ast.iter_child_nodes(node):
             if isinstance(ch, (ast.FunctionDef, ast.AsyncFunctionDef, ast.ClassDef)):
                 q = prefix + "." + ch.name
+                if q in self.defs and any(unparse(d).endswith((".setter", ".deleter"))
+                                          for d in getattr(ch, "decorator_list", [])):
+                    q = q + "@" + unparse(ch.decorator_list[-1]).rsplit(".", 1)[1]
                 self.defs[q] = ch
                 self.owner_mod[q] = m
                 self.parent[q] = prefix
@@ -559,7 +562,10 @@ class Model:
                                  if q.rsplit(".", 1)[1] == n.func.attr
                                  and isinstance(self.defs.get(self.parent.get(q)), ast.ClassDef)]
                         r = self.resolve(fq, n.func)
-                        if r is None and len(cands) == 1 and n.func.attr not in COMMON_EXT_METHODS:
+                        recv = n.func.value
+                        builtin_recv = isinstance(recv, ast.Name) and recv.id in BUILTIN_NAMES
+                        if r is None and len(cands) == 1 and n.func.attr not in COMMON_EXT_METHODS \
+                                and not n.func.attr.startswith("__") and not builtin_recv:
                             cs = {cands[0]}
                     sites.append((n, cs))
                     callees |= cs
@@ -590,6 +596,7 @@ class Model:
         return seen
 
 
+BUILTIN_NAMES = {"dict", "list", "set", "tuple", "str", "int", "float", "object", "super", "type", "bytes", "frozenset"}
 COMMON_EXT_METHODS = {
     "copy", "append", "extend", "get", "items", "keys", "values", "update", "add", "remove", "pop", "sort",
     "wrap", "translate", "center", "repeat", "format", "join", "split", "index", "count", "any", "all", "max", "min",
